@@ -320,14 +320,16 @@ class MapOf(Spec):
 
 
 class SetOf(Spec):
-    def __init__(self, key: Spec):
+    def __init__(self, key: Spec, invariant=None):
         self.key = key
+        self.invariant = invariant  # holds for every element of a set received as input
 
     def fresh(self, name):
         c = cur()
         ks = self.key.scalar_sort
         s = sym.SymSet(ks, c.fresh(name + ".has", tm.arr(ks, BOOL)), self.key.term, self.key.wrap, name)
         s.spec = self
+        s.elem_invariant = self.invariant
         return s
 
     def empty(self, name="set"):
@@ -346,10 +348,52 @@ class SeqOf(Spec):
         n = c.fresh(name + ".len", INT)
         c.pc.append(tm.Ge(n, tm.mk_int(0)))
         state = self.val.arr_fresh(name + ".elem", INT)
-        q = sym.SymSeq(lambda i: self.val.arr_select(state, i), n, name=name)
+        q = sym.SymSeq(None, n, name=name)
         q.spec = self
         q.state = state
+        q.elem = lambda i: self.val.arr_select(q.state, i)
         return q
+
+    def empty(self, name="list"):
+        c = cur()
+        state = self.val.arr_fresh(c.fresh_name(name + ".elem0"), INT)
+        q = sym.SymSeq(None, tm.mk_int(0), name=name)
+        q.spec = self
+        q.state = state
+        q.elem = lambda i: self.val.arr_select(q.state, i)
+        sym.mark_born(q)
+        return q
+
+
+class SameRef(Spec):
+    """A field that holds one and the same heap object in every stored value (e.g. `graph`).
+
+    Array state is a one-element holder; storing a different object is outside the subset."""
+
+    def fresh(self, name):
+        raise sym.Unsupported("SameRef has no fresh value; it is filled by the first store")
+
+    def arr_fresh(self, name, ksort):
+        return [None]
+
+    class Unknown:
+        def __getattr__(self, name):
+            raise sym.Unsupported("use of a reference field whose object is not known (havocked sequence)")
+
+    def arr_select(self, state, kt):
+        if state[0] is None:
+            return SameRef.Unknown()
+        return state[0]
+
+    def arr_store(self, state, kt, value):
+        if state[0] is None:
+            return [value]
+        if state[0] is not value:
+            raise sym.Unsupported("two different objects stored in a SameRef field")
+        return state
+
+    def terms_of(self, v):
+        return []
 
 
 class Make(Spec):
@@ -360,6 +404,19 @@ class Make(Spec):
 
     def fresh(self, name):
         return self.factory(name)
+
+    # as an element of a sequence / map: every selection makes a new unconstrained stub
+    def arr_fresh(self, name, ksort):
+        return name
+
+    def arr_select(self, state, kt):
+        return self.factory(cur().fresh_name(f"{state}.at"))
+
+    def arr_store(self, state, kt, value):
+        return state
+
+    def terms_of(self, v):
+        return []
 
 
 class TupleOf(Spec):
